@@ -129,7 +129,14 @@ pub fn case(rng: &mut Rng, out: &mut Out, bound: usize) {
     };
     let before = gram.to_string(Some(&lex));
     let after = gram.optimize().to_string(Some(&lex));
-    let (Some((s1, r1)), Some((s2, r2))) = (parse_grammar_text(&before), parse_grammar_text(&after)) else {
+    compare_dumps(out, &lark, &before, &after, bound, true);
+}
+
+/// languages (terminal sequences up to `bound`) of the grammar dumps before and after optimisation;
+/// the model enumerates the language of the front-end rules (and, with `optimizer_case`, runs its own
+/// optimiser on them)
+fn compare_dumps(out: &mut Out, lark: &str, before: &str, after: &str, bound: usize, optimizer_case: bool) {
+    let (Some((s1, r1)), Some((s2, r2))) = (parse_grammar_text(before), parse_grammar_text(after)) else {
         out.count("unparsable_dump", 1);
         return;
     };
@@ -192,7 +199,7 @@ pub fn case(rng: &mut Rng, out: &mut Out, bound: usize) {
         l1.len() > 1,
     );
     // the optimiser itself: rules of every symbol after optimisation, symbol by symbol (by name)
-    if s2 == s1 {
+    if s2 == s1 && optimizer_case {
         let after_rules: Vec<Sx> = names
             .iter()
             .map(|n| {
@@ -529,6 +536,75 @@ pub fn param_case(rng: &mut Rng, out: &mut Out, bound: usize) {
     }
 }
 
+
+// ------------------------------------------------------------------ JSON-schema front end
+fn gen_ref_schema(rng: &mut Rng) -> serde_json::Value {
+    use serde_json::json;
+    let leaf = |rng: &mut Rng| -> serde_json::Value {
+        match rng.below(5) {
+            0 => json!({"type": "null"}),
+            1 => json!({"type": "boolean"}),
+            2 => json!({"const": 1}),
+            3 => json!({"enum": ["a", "b"]}),
+            _ => json!({"type": "integer", "minimum": 0, "maximum": 9}),
+        }
+    };
+    let names = ["A", "B", "C"];
+    let ndefs = rng.range(1, 3);
+    // use sites: a definition referenced once is inlined by the optimiser, one referenced twice is kept
+    fn node(rng: &mut Rng, names: &[&str], ndefs: usize, depth: usize, from: usize, leaf: &dyn Fn(&mut Rng) -> serde_json::Value) -> serde_json::Value {
+        use serde_json::json;
+        let k = if depth == 0 { rng.below(3) } else { rng.below(8) };
+        match k {
+            0 | 1 => {
+                // references only go to later definitions (no recursion) unless `rec`
+                let lo = from;
+                if lo < ndefs { json!({"$ref": format!("#/$defs/{}", names[rng.range(lo, ndefs - 1)])}) } else { leaf(rng) }
+            }
+            2 => leaf(rng),
+            3 => json!({"anyOf": [node(rng, names, ndefs, depth - 1, from, leaf), node(rng, names, ndefs, depth - 1, from, leaf)]}),
+            4 => json!({"type": "object", "properties": {"x": node(rng, names, ndefs, depth - 1, from, leaf)}, "required": ["x"], "additionalProperties": false}),
+            5 => json!({"type": "object", "properties": {"x": node(rng, names, ndefs, depth - 1, from, leaf), "y": node(rng, names, ndefs, depth - 1, from, leaf)}, "required": if rng.chance(1, 2) { vec!["x"] } else { vec!["x", "y"] }, "additionalProperties": false}),
+            6 => json!({"type": "array", "items": node(rng, names, ndefs, depth - 1, from, leaf), "maxItems": rng.range(1, 2)}),
+            _ => json!({"type": "array", "prefixItems": [node(rng, names, ndefs, depth - 1, from, leaf)], "items": false, "minItems": 1}),
+        }
+    }
+    let mut defs = serde_json::Map::new();
+    for i in 0..ndefs {
+        let d = if rng.chance(1, 6) {
+            // a recursive definition (list / tree)
+            json!({"anyOf": [{"type": "null"}, {"type": "object", "properties": {"n": {"$ref": format!("#/$defs/{}", names[i])}}, "required": ["n"], "additionalProperties": false}]})
+        } else {
+            node(rng, &names, ndefs, 2, i + 1, &leaf)
+        };
+        defs.insert(names[i].to_string(), d);
+    }
+    let mut root = node(rng, &names, ndefs, 2, 0, &leaf);
+    if !root.is_object() {
+        root = json!({"anyOf": [root]});
+    }
+    root["$defs"] = serde_json::Value::Object(defs);
+    root["x-guidance"] = json!({"whitespace_flexible": false});
+    root
+}
+
+pub fn json_case(rng: &mut Rng, out: &mut Out, bound: usize) {
+    let schema = gen_ref_schema(rng);
+    let gi = GrammarInit::Serialized(TopLevelGrammar::from_json_schema(schema.clone()));
+    let Ok((gram, lex)) = gi.to_internal(None, ParserLimits::default()) else {
+        out.count("grammar_rejected", 1);
+        return;
+    };
+    let before = gram.to_string(Some(&lex));
+    let r = std::panic::catch_unwind(std::panic::AssertUnwindSafe(|| gram.optimize().to_string(Some(&lex))));
+    let Ok(after) = r else {
+        out.violation("Grammar::optimize panicked on a JSON-schema grammar", schema.to_string());
+        return;
+    };
+    compare_dumps(out, &schema.to_string(), &before, &after, bound, false);
+    out.count("json_schema_grammars", 1);
+}
+
 pub fn run(rng: &mut Rng, out: &mut Out, tier: &str) {
     let (n, bound) = if tier == "thorough" { (4000, 6) } else { (500, 5) };
     for i in 0..n {
@@ -536,5 +612,7 @@ pub fn run(rng: &mut Rng, out: &mut Out, tier: &str) {
         case(&mut r, out, bound);
         let mut r = rng.fork(0x1500_0000 + i as u64);
         param_case(&mut r, out, bound + 1);
+        let mut r = rng.fork(0x1600_0000 + i as u64);
+        json_case(&mut r, out, bound + 3);
     }
 }
